@@ -23,6 +23,8 @@ const DAY: i64 = 86_400;
 enum Call {
     ExecAt(i64),
     ExecNow,
+    /// `execute_with_callback` (the engine's second copy of the loop), evaluated "now"
+    ExecCallback,
     SetFocus(String),
     Pop,
     Clear,
@@ -30,6 +32,10 @@ enum Call {
     ResetNoLoop,
     SetEnabled(usize, bool),
     WorkflowStep(String),
+    /// `knowledge_base().remove_rule(name)`
+    RemoveRule(usize),
+    /// `knowledge_base().add_rule(..)` of a rule removed earlier: it becomes the newest rule
+    ReAddRule(usize),
 }
 
 #[derive(Clone, Debug)]
@@ -53,6 +59,7 @@ fn call_json(c: &Call) -> Json {
     match c {
         Call::ExecAt(t) => json!({"execute_at_time": t, "rel": format!("T0{:+}s", t - T0)}),
         Call::ExecNow => json!("execute"),
+        Call::ExecCallback => json!("execute_with_callback"),
         Call::SetFocus(g) => json!({"set_agenda_focus": g}),
         Call::Pop => json!("pop_agenda_focus"),
         Call::Clear => json!("clear_agenda_focus"),
@@ -60,12 +67,15 @@ fn call_json(c: &Call) -> Json {
         Call::ResetNoLoop => json!("reset_no_loop_tracking"),
         Call::SetEnabled(i, b) => json!({"set_rule_enabled": [i, b]}),
         Call::WorkflowStep(g) => json!({"execute_workflow_step": g}),
+        Call::RemoveRule(i) => json!({"remove_rule": i}),
+        Call::ReAddRule(i) => json!({"re_add_rule": i}),
     }
 }
 fn call_from(j: &Json) -> Option<Call> {
     if let Some(s) = j.as_str() {
         return Some(match s {
             "execute" => Call::ExecNow,
+            "execute_with_callback" => Call::ExecCallback,
             "pop_agenda_focus" => Call::Pop,
             "clear_agenda_focus" => Call::Clear,
             "reset_no_loop_tracking" => Call::ResetNoLoop,
@@ -83,6 +93,12 @@ fn call_from(j: &Json) -> Option<Call> {
     }
     if let Some(g) = j.get("execute_workflow_step") {
         return Some(Call::WorkflowStep(g.as_str()?.into()));
+    }
+    if let Some(i) = j.get("remove_rule") {
+        return Some(Call::RemoveRule(i.as_u64()? as usize));
+    }
+    if let Some(i) = j.get("re_add_rule") {
+        return Some(Call::ReAddRule(i.as_u64()? as usize));
     }
     if let Some(a) = j.get("set_rule_enabled") {
         let a = a.as_array()?;
@@ -171,6 +187,7 @@ fn judge(case: &Case) -> (Verdict, Obs) {
     // ---- build the engine: text carries name/condition/actions; attributes are applied on the
     // parsed Rule so that this check does not depend on the parser's attribute handling (C04)
     let kb = KnowledgeBase::new("verif");
+    let mut built: Vec<rust_rule_engine::Rule> = Vec::new();
     for r in &case.rules {
         let mut ast = r.ast.clone();
         ast.attrs = Attrs::default();
@@ -192,6 +209,7 @@ fn judge(case: &Case) -> (Verdict, Obs) {
         rule.date_effective = r.effective.map(to_dt);
         rule.date_expires = r.expires.map(to_dt);
         rule.enabled = r.enabled;
+        built.push(rule.clone());
         if kb.add_rule(rule).is_err() {
             obs.setup_failed = true;
             return (None, obs);
@@ -214,9 +232,15 @@ fn judge(case: &Case) -> (Verdict, Obs) {
 
     // ---- shadow state
     let n = case.rules.len();
-    let mut order: Vec<usize> = (0..n).collect();
-    order.sort_by_key(|&i| (std::cmp::Reverse(case.rules[i].salience), i));
-    let rank_of: BTreeMap<String, usize> = order.iter().enumerate().map(|(rk, &i)| (case.rules[i].ast.name.clone(), rk)).collect();
+    // rules currently in the knowledge base, in the order they were added
+    let mut kb_order: Vec<usize> = (0..n).collect();
+    let compute_order = |kb_order: &Vec<usize>| -> (Vec<usize>, BTreeMap<String, usize>) {
+        let mut order: Vec<usize> = kb_order.clone();
+        order.sort_by_key(|&i| (std::cmp::Reverse(case.rules[i].salience), kb_order.iter().position(|x| *x == i).unwrap_or(usize::MAX)));
+        let rank_of = order.iter().enumerate().map(|(rk, &i)| (case.rules[i].ast.name.clone(), rk)).collect();
+        (order, rank_of)
+    };
+    let (mut order, mut rank_of) = compute_order(&kb_order);
     let idx_of: BTreeMap<String, usize> = case.rules.iter().enumerate().map(|(i, r)| (r.ast.name.clone(), i)).collect();
     let mut enabled: Vec<bool> = case.rules.iter().map(|r| r.enabled).collect();
     let mut focus: BTreeSet<String> = BTreeSet::new();
@@ -266,8 +290,8 @@ fn judge(case: &Case) -> (Verdict, Obs) {
             Call::Pop => {
                 let _ = engine.pop_agenda_focus();
                 let got = engine.get_active_agenda_group().to_string();
-                focus = [got.clone()].into_iter().collect();
-                activate(&got, "pop_agenda_focus", &mut loa_count, &mut last_activation);
+                // returning to a group is not an activation of it (O5): the lock stays
+                focus = [got].into_iter().collect();
             }
             Call::Clear => {
                 engine.clear_agenda_focus();
@@ -276,7 +300,6 @@ fn judge(case: &Case) -> (Verdict, Obs) {
                     return (Some(("focus-call-not-honoured", "clear_agenda_focus".into(), format!("call #{}: after clear_agenda_focus() the active group is {:?}", ci, got))), obs);
                 }
                 focus = [got].into_iter().collect();
-                activate("MAIN", "clear_agenda_focus", &mut loa_count, &mut last_activation);
             }
             Call::ResetNoLoop => {
                 engine.reset_no_loop_tracking();
@@ -289,8 +312,24 @@ fn judge(case: &Case) -> (Verdict, Obs) {
                     enabled[*i] = *b;
                 }
             }
+            Call::RemoveRule(i) => {
+                if *i < n && kb_order.contains(i) {
+                    let _ = engine.knowledge_base().remove_rule(&case.rules[*i].ast.name);
+                    kb_order.retain(|x| x != i);
+                    (order, rank_of) = compute_order(&kb_order);
+                }
+            }
+            Call::ReAddRule(i) => {
+                if *i < n && !kb_order.contains(i) {
+                    if engine.knowledge_base().add_rule(built[*i].clone()).is_ok() {
+                        kb_order.push(*i);
+                        enabled[*i] = case.rules[*i].enabled;
+                        (order, rank_of) = compute_order(&kb_order);
+                    }
+                }
+            }
             Call::ExecAt(t) => exec_t = Some(Some(*t)),
-            Call::ExecNow => exec_t = Some(None),
+            Call::ExecNow | Call::ExecCallback => exec_t = Some(None),
             Call::WorkflowStep(g) => {
                 // set focus to g, then execute at the current time
                 focus = [g.clone()].into_iter().collect();
@@ -319,6 +358,7 @@ fn judge(case: &Case) -> (Verdict, Obs) {
         })));
         let res = pan::catch_frames(|| match (call, t) {
             (Call::WorkflowStep(g), _) => engine.execute_workflow_step(g, &facts).map(|_| ()),
+            (Call::ExecCallback, _) => engine.execute_with_callback(&facts, |_name, _facts| {}).map(|_| ()),
             (_, Some(ts)) => engine.execute_at_time(&facts, to_dt(ts)).map(|_| ()),
             (_, None) => engine.execute(&facts).map(|_| ()),
         });
@@ -572,7 +612,7 @@ fn shrink(case: &Case, clause: &'static str) -> Case {
         best.calls = shrink_list(&best.calls.clone(), &mut f);
     }
     // rules (SetEnabled indices refer to positions: only drop rules when no SetEnabled call remains)
-    if !best.calls.iter().any(|c| matches!(c, Call::SetEnabled(..))) {
+    if !best.calls.iter().any(|c| matches!(c, Call::SetEnabled(..) | Call::RemoveRule(_) | Call::ReAddRule(_))) {
         let b = best.clone();
         let mut f = |rs: &[R]| !rs.is_empty() && fails_same(&Case { rules: rs.to_vec(), ..b.clone() }, clause);
         best.rules = shrink_list(&best.rules.clone(), &mut f);
@@ -701,26 +741,40 @@ fn gen_case(rng: &mut Rng) -> Case {
     for f in FLAGS {
         store.0.insert(f.to_string(), V::Bool(rng.bool()));
     }
-    let n_calls = 1 + rng.below(6);
+    let n_calls = 1 + rng.below(7);
     let mut calls = Vec::new();
     let grp = |rng: &mut Rng| -> String {
         if n_groups == 0 || rng.chance(1, 5) { "MAIN".to_string() } else { GROUPS[rng.below(n_groups)].to_string() }
     };
     for _ in 0..n_calls {
         let c = match rng.below(20) {
-            0..=7 => Call::ExecAt(*rng.pick(&[T0 - 1, T0, T0 + 1, T0 + DAY - 1, T0 + DAY, T0 + DAY + 1, T0 + 2 * DAY, T0 + 2 * DAY + 1, T0 + 3 * DAY])),
-            8 => Call::ExecNow,
+            0 => Call::ExecCallback,
+            1..=7 => Call::ExecAt(*rng.pick(&[T0 - 1, T0, T0 + 1, T0 + DAY - 1, T0 + DAY, T0 + DAY + 1, T0 + 2 * DAY, T0 + 2 * DAY + 1, T0 + 3 * DAY])),
+            8 => {
+                if rng.bool() {
+                    Call::ExecNow
+                } else {
+                    Call::ExecCallback
+                }
+            }
             9..=11 => Call::SetFocus(grp(rng)),
             12 => Call::Pop,
             13 => Call::Clear,
             14..=15 => Call::Activate(grp(rng)),
             16 => Call::ResetNoLoop,
-            17..=18 => Call::SetEnabled(rng.below(n), rng.bool()),
+            17 => Call::SetEnabled(rng.below(n), rng.bool()),
+            18 => {
+                if rng.bool() {
+                    Call::RemoveRule(rng.below(n))
+                } else {
+                    Call::ReAddRule(rng.below(n))
+                }
+            }
             _ => Call::WorkflowStep(grp(rng)),
         };
         calls.push(c);
     }
-    if !calls.iter().any(|c| matches!(c, Call::ExecAt(_) | Call::ExecNow | Call::WorkflowStep(_))) {
+    if !calls.iter().any(|c| matches!(c, Call::ExecAt(_) | Call::ExecNow | Call::ExecCallback | Call::WorkflowStep(_))) {
         calls.push(Call::ExecAt(T0 + DAY));
     }
     Case { rules, store, max_cycles: 1 + rng.below(5), calls }
@@ -772,7 +826,7 @@ fn attribute_grid() -> Vec<Case> {
                 rules,
                 store,
                 max_cycles: 3,
-                calls: vec![Call::ExecAt(T0 + 10), Call::SetFocus("G1".into()), Call::ExecAt(T0 + 10), Call::ExecAt(T0 + 2 * DAY), Call::Clear, Call::ExecAt(T0 + 10)],
+                calls: vec![Call::ExecAt(T0 + 10), Call::SetFocus("G1".into()), Call::ExecAt(T0 + 10), Call::ExecAt(T0 + 2 * DAY), Call::Clear, Call::ExecAt(T0 + 10), Call::ResetNoLoop, Call::ExecCallback, Call::ExecCallback],
             });
         }
     }
@@ -786,14 +840,14 @@ impl Check for C02 {
         "C02"
     }
     fn rule(&self) -> String {
-        "2-8 rules over boolean flags that the actions flip (self- and mutually triggering), salience from {-2,-1,0,0,1,1,i32::MAX,i32::MIN} (ties on purpose), no-loop / lock-on-active with probability 1/2, 0-3 agenda groups, 2 activation groups, date windows around three instants (evaluation exactly at, one second before and after each boundary), 1/8 disabled, ActivateAgendaGroup actions; histories of 1-6 calls (execute_at_time, execute, set/pop/clear focus, activate_agenda_group, reset_no_loop_tracking, set_rule_enabled, execute_workflow_step) on one engine, max_cycles 1-5; plus the exhaustive grid of all 32x32 attribute subsets on two rules with a fixed activator rule and call history. Non-trivial: at least 2 firings over at least 2 passes; distinct by the whole case.".into()
+        "2-8 rules over boolean flags that the actions flip (self- and mutually triggering), salience from {-2,-1,0,0,1,1,i32::MAX,i32::MIN} (ties on purpose), no-loop / lock-on-active with probability 1/2, 0-3 agenda groups, 2 activation groups, date windows around three instants (evaluation exactly at, one second before and after each boundary), 1/8 disabled, ActivateAgendaGroup actions; histories of 1-6 calls (execute_at_time, execute, execute_with_callback, set/pop/clear focus, activate_agenda_group, reset_no_loop_tracking, set_rule_enabled, remove_rule / re-add of a removed rule, execute_workflow_step) on one engine, max_cycles 1-5; plus the exhaustive grid of all 32x32 attribute subsets on two rules with a fixed activator rule and call history. Non-trivial: at least 2 firings over at least 2 passes; distinct by the whole case.".into()
     }
     fn assumptions(&self) -> Vec<String> {
         vec![
             "attributes are set on the parsed Rule objects (not through GRL attribute syntax) so that the check is independent of C04's parser findings".into(),
             "the focused group at a call boundary is what get_active_agenda_group() reports; inside a run an ActivateAgendaGroup action may take effect immediately or at the next pass (both accepted)".into(),
             "date windows: firing strictly before `effective` or strictly after `expires` is a violation; exactly at `expires` is not judged".into(),
-            "lock-on-active: every call or action that (possibly) activates a group resets the per-activation count, so the clause is an upper bound".into(),
+            "lock-on-active: an activation of a group is one set_agenda_focus / activate_agenda_group / execute_workflow_step call or one executed ActivateAgendaGroup action naming it (DESIGN O5); focus returning to a group through pop/clear is not an activation".into(),
             "activation-group 'highest' clause only judges higher-ranked members that were certainly eligible (enabled, inside the window, focus unambiguous, never blocked)".into(),
         ]
     }
@@ -808,7 +862,7 @@ impl Check for C02 {
                 }
             }
         });
-        st.exhaustive.push("all 32x32 attribute subsets (no-loop, lock-on-active, agenda group, activation group, date window) on two equal-salience rules with a fixed activator rule and a fixed 6-call history".into());
+        st.exhaustive.push("all 32x32 attribute subsets (no-loop, lock-on-active, agenda group, activation group, date window) on two equal-salience rules with a fixed activator rule and a fixed 9-call history".into());
         let per = cli.n(3_000, 80_000);
         shards(cli, nthreads, st, |_shard, rng, st| {
             for _ in 0..per {
